@@ -1,32 +1,43 @@
-// c13: drives real resources.NewCRDT instances (GCounter payload) on 127.0.0.1 through the
-// ArchetypeResource methods, CRDTRPCReceiver.ReceiveValue (over net/rpc) and the verif hooks
-// (one broadcast round now; state snapshot; shutdown). The periodic broadcast is disabled by a very
-// long interval: every tick of a schedule is issued by this driver.
+// c13: drives real resources.NewCRDT instances on 127.0.0.1 through the ArchetypeResource methods,
+// CRDTRPCReceiver.ReceiveValue (over net/rpc) and the verif hooks (one broadcast round now; state
+// snapshot; shutdown). The periodic broadcast is disabled by a very long interval: every tick of a
+// schedule is issued by this driver. The payload is GCounter, AWORSet or LWWSet, wrapped in `gated`,
+// a CRDTValue that delegates everything and lets the driver hold up one Merge (inside the merger
+// goroutine) or one GobEncode (inside a broadcast round, after the payload was read) of a chosen node.
 //
 // Input (stdin), one JSON case per line:
 //
-//	{"id":N, "n":3, "self_in_peers":false,
-//	 "events":[ ["w", i, v]   node i: WriteValue(increment v)      (opens a section if none is open)
+//	{"id":N, "type":"gcounter"|"aworset"|"lww", "n":3, "self_in_peers":false, "dead_peer":false,
+//	 "events":[ ["w", i, v] | ["w", i, cmd, elem]   node i: WriteValue (opens a section if none is open)
 //	            ["c", i]      node i: PreCommit+Commit
 //	            ["a", i]      node i: Abort
 //	            ["t", i]      node i: one broadcast round (VerifCRDTBroadcast)
-//	            ["r", i, [[k, v], ...]]  external peer calls ReceiveValue on node i with a GCounter
-//	                                     holding entries k -> v (k is a foreign writer id >= 100)
-//	            ["d", i]      node i goes down (listener and connections closed)
+//	            ["r", i, X]   an external peer calls ReceiveValue on node i with a value X:
+//	                          gcounter [[k, v], ...] (foreign writer ids k >= 100); sets [[cmd, elem], ...]
+//	                          written by foreign writer 100 on a fresh value
+//	            ["gm", i, X, SUB]  like "r", but node i's merger is held inside Merge(X) while the simple
+//	                          events SUB (w/c/a of node i) are attempted; then the merge is released
+//	            ["gt", i, SUB]     one broadcast round of node i held after the payload was read (inside the
+//	                          first GobEncode) while SUB is performed; then the round is released
+//	            ["fin"]       no action: all stable states must be equivalent now
 //	          ]}
 //
 // Output, one JSON line per case:
 //
-//	{"id":N, "snaps":[ per event: [ per node: {"v":value read, "s":stable read, "h":hasOld, "need":k,
-//	                                           "ve":{writer:count}, "se":{writer:count}} ] ],
-//	 "replies":[ per event: for "r" the entries of the reply, else null ], "err":""}
+//	{"id":N, "snaps":[ per event: [ per node: {"v":read, "s":stable read, "h":hasOld, "need":k, "ve":{..}, "se":{..}} ] ],
+//	 "replies":[...], "t0":[ per event: driver clock readings taken just before each LWW write of that event ],
+//	 "blocked":[ per event: "gm": SUB could not proceed while the merge was held (the merger holds the lock) ],
+//	 "pfails":[{"sig":..., "ev":k, "what":...}], "err":""}
 //
-// After every event the driver waits until every merge queue is empty and the snapshots are stable
-// (the merger goroutine of crdt.go merges received states as soon as it can).
+// reads: gcounter number; sets sorted element list. After every event the driver waits until every merge
+// queue is empty and the snapshots are stable. pfails: payload-level oracle (gcounter, lww): states are
+// fetched with ReceiveValue(nil) (the reply is the stable state) and compared with the real Merge.
 package main
 
 import (
 	"bufio"
+	"bytes"
+	"encoding/gob"
 	"encoding/json"
 	"fmt"
 	"io"
@@ -35,7 +46,9 @@ import (
 	"net/rpc"
 	"os"
 	"regexp"
+	"sort"
 	"strconv"
+	"sync"
 	"time"
 
 	"github.com/DistCompiler/pgo/distsys"
@@ -43,8 +56,183 @@ import (
 	"github.com/DistCompiler/pgo/distsys/tla"
 )
 
+// ---------------------------------------------------------------- gated payload
+
+type gateT struct {
+	mu      sync.Mutex
+	armed   map[string]bool // "m<i>" merge of node i, "e<i>" encode of node i
+	entered chan string
+	release chan struct{}
+}
+
+var gate = gateT{armed: map[string]bool{}, entered: make(chan string, 4), release: make(chan struct{})}
+
+func (g *gateT) arm(key string) {
+	g.mu.Lock()
+	g.armed[key] = true
+	g.mu.Unlock()
+}
+
+func (g *gateT) disarm(key string) {
+	g.mu.Lock()
+	delete(g.armed, key)
+	g.mu.Unlock()
+}
+
+func (g *gateT) pass(key string) {
+	g.mu.Lock()
+	hit := g.armed[key]
+	if hit {
+		delete(g.armed, key)
+	}
+	g.mu.Unlock()
+	if hit {
+		g.entered <- key
+		<-g.release
+	}
+}
+
+// gated wraps a CRDT value of node Node (-1: a value that came over the wire)
+type gated struct {
+	Inner resources.CRDTValue
+	Node  int
+}
+
+type holder struct{ V resources.CRDTValue }
+
+func (c gated) Init() resources.CRDTValue { return gated{c.Inner.Init(), c.Node} }
+func (c gated) Read() tla.Value           { return c.Inner.Read() }
+func (c gated) Write(id tla.Value, v tla.Value) resources.CRDTValue {
+	return gated{c.Inner.Write(id, v), c.Node}
+}
+func (c gated) Merge(other resources.CRDTValue) resources.CRDTValue {
+	gate.pass(fmt.Sprintf("m%d", c.Node))
+	return gated{c.Inner.Merge(unwrap(other)), c.Node}
+}
+func (c gated) String() string { return fmt.Sprint(c.Inner) }
+func (c gated) GobEncode() ([]byte, error) {
+	gate.pass(fmt.Sprintf("e%d", c.Node))
+	var buf bytes.Buffer
+	err := gob.NewEncoder(&buf).Encode(&holder{V: c.Inner})
+	return buf.Bytes(), err
+}
+func (c *gated) GobDecode(b []byte) error {
+	var h holder
+	if err := gob.NewDecoder(bytes.NewBuffer(b)).Decode(&h); err != nil {
+		return err
+	}
+	c.Inner, c.Node = h.V, -1
+	return nil
+}
+
+func unwrap(v resources.CRDTValue) resources.CRDTValue {
+	if g, ok := v.(gated); ok {
+		return g.Inner
+	}
+	return v
+}
+
+func init() { gob.Register(gated{}) }
+
+// ---------------------------------------------------------------- canonical projections (as cmd/c12)
+
+type pairs [][2]int64
+
+func sortPairs(p pairs) pairs {
+	sort.Slice(p, func(i, j int) bool { return p[i][0] < p[j][0] })
+	return p
+}
+
+func valNum(v tla.Value) int64 { return int64(v.AsNumber()) }
+
+func canonGC(c resources.GCounter) pairs {
+	out := pairs{}
+	it := c.Iterator()
+	for !it.Done() {
+		k, v, _ := it.Next()
+		if v != 0 {
+			out = append(out, [2]int64{valNum(k), int64(v)})
+		}
+	}
+	return sortPairs(out)
+}
+
+func lwwDecode(b []byte) (adds, rems pairs, err error) {
+	dec := gob.NewDecoder(bytes.NewBuffer(b))
+	for part := 0; part < 2; part++ {
+		var n int
+		if err = dec.Decode(&n); err != nil {
+			return
+		}
+		ps := pairs{}
+		for i := 0; i < n; i++ {
+			var k tla.Value
+			var t time.Time
+			if err = dec.Decode(&k); err != nil {
+				return
+			}
+			if err = dec.Decode(&t); err != nil {
+				return
+			}
+			ps = append(ps, [2]int64{valNum(k), t.UnixNano()})
+		}
+		if part == 0 {
+			adds = sortPairs(ps)
+		} else {
+			rems = sortPairs(ps)
+		}
+	}
+	return
+}
+
+// own projects a state on what the mesh itself wrote (external ReceiveValue calls inject entries of
+// foreign writers, which nobody re-broadcasts): gcounter only
+func own(s resources.CRDTValue) string {
+	if g, ok := unwrap(s).(resources.GCounter); ok {
+		out := pairs{}
+		for _, p := range canonGC(g) {
+			if p[0] < 100 {
+				out = append(out, p)
+			}
+		}
+		b, _ := json.Marshal(out)
+		return string(b)
+	}
+	return canonStr(s)
+}
+
+func canonStr(s resources.CRDTValue) string {
+	var c interface{}
+	switch v := unwrap(s).(type) {
+	case resources.GCounter:
+		c = canonGC(v)
+	case resources.LWWSet:
+		b, err := v.GobEncode()
+		if err != nil {
+			panic(err)
+		}
+		adds, rems, err := lwwDecode(b)
+		if err != nil {
+			panic(err)
+		}
+		c = map[string]interface{}{"add": adds, "rem": rems}
+	default:
+		c = fmt.Sprint(v)
+	}
+	b, _ := json.Marshal(c)
+	return string(b)
+}
+
+// a ⊑ b on the real Merge: b ⊔ a == b
+func leq(a, b resources.CRDTValue) bool {
+	return canonStr(unwrap(b).Merge(unwrap(a))) == canonStr(b)
+}
+
+// ---------------------------------------------------------------- case
+
 type kase struct {
 	ID          int               `json:"id"`
+	Type        string            `json:"type"`
 	N           int               `json:"n"`
 	SelfInPeers bool              `json:"self_in_peers"`
 	DeadPeer    bool              `json:"dead_peer"` // the peer lists also name a peer nobody listens for
@@ -52,18 +240,27 @@ type kase struct {
 }
 
 type snap struct {
-	V    int64            `json:"v"`
-	S    int64            `json:"s"`
+	V    interface{}      `json:"v"`
+	S    interface{}      `json:"s"`
 	H    bool             `json:"h"`
 	Need int              `json:"need"`
 	VE   map[string]int64 `json:"ve"`
 	SE   map[string]int64 `json:"se"`
 }
 
+type pfail struct {
+	Sig  string `json:"sig"`
+	Ev   int    `json:"ev"`
+	What string `json:"what"`
+}
+
 type result struct {
 	ID      int                `json:"id"`
 	Snaps   [][]snap           `json:"snaps"`
 	Replies []map[string]int64 `json:"replies"`
+	T0      [][]int64          `json:"t0"`
+	Blocked []bool             `json:"blocked"`
+	PFails  []pfail            `json:"pfails"`
 	Err     string             `json:"err"`
 }
 
@@ -81,16 +278,39 @@ func entries(s string) map[string]int64 {
 	return out
 }
 
-func takeSnaps(nodes []distsys.ArchetypeResource, down []bool) ([]snap, int) {
-	out := make([]snap, len(nodes))
+func readOf(typ string, v tla.Value) interface{} {
+	if typ == "gcounter" {
+		return int64(v.AsNumber())
+	}
+	out := []int64{}
+	it := v.AsSet().Iterator()
+	for !it.Done() {
+		k, _, _ := it.Next()
+		out = append(out, valNum(k))
+	}
+	sort.Slice(out, func(i, j int) bool { return out[i] < out[j] })
+	return out
+}
+
+type run struct {
+	k     kase
+	nodes []distsys.ArchetypeResource
+	addrs []string
+	cl    []*rpc.Client
+	lastT int64
+	t0    []int64
+}
+
+func (r *run) takeSnaps() ([]snap, int) {
+	out := make([]snap, len(r.nodes))
 	q := 0
-	for i, r := range nodes {
-		st := resources.VerifCRDTSnapshot(r)
-		out[i] = snap{V: int64(st.Value.AsNumber()), S: int64(st.Stable.AsNumber()), H: st.HasOld, Need: st.Need,
-			VE: entries(st.ValueStr), SE: entries(st.StableStr)}
-		if !down[i] {
-			q += st.QueueLen
+	for i, n := range r.nodes {
+		st := resources.VerifCRDTSnapshot(n)
+		out[i] = snap{V: readOf(r.k.Type, st.Value), S: readOf(r.k.Type, st.Stable), H: st.HasOld, Need: st.Need}
+		if r.k.Type == "gcounter" {
+			out[i].VE, out[i].SE = entries(st.ValueStr), entries(st.StableStr)
 		}
+		q += st.QueueLen
 	}
 	return out, q
 }
@@ -102,12 +322,12 @@ func sameSnaps(a, b []snap) bool {
 }
 
 // settle waits for the condition "all merge queues empty and three consecutive equal snapshots"
-func settle(nodes []distsys.ArchetypeResource, down []bool) ([]snap, error) {
+func (r *run) settle() ([]snap, error) {
 	deadline := time.Now().Add(5 * time.Second)
 	var prev []snap
 	stableRuns := 0
 	for time.Now().Before(deadline) {
-		cur, q := takeSnaps(nodes, down)
+		cur, q := r.takeSnaps()
 		if q == 0 && prev != nil && sameSnaps(prev, cur) {
 			stableRuns++
 			if stableRuns >= 3 {
@@ -122,24 +342,178 @@ func settle(nodes []distsys.ArchetypeResource, down []bool) ([]snap, error) {
 	return prev, fmt.Errorf("hang: merge queues did not settle")
 }
 
+func (r *run) client(i int) (*rpc.Client, error) {
+	if r.cl[i] == nil {
+		c, err := rpc.Dial("tcp", r.addrs[i])
+		if err != nil {
+			return nil, err
+		}
+		r.cl[i] = c
+	}
+	return r.cl[i], nil
+}
+
+// receive calls ReceiveValue on node i; v == nil only fetches the stable state
+func (r *run) receive(i int, v resources.CRDTValue) (resources.CRDTValue, error) {
+	c, err := r.client(i)
+	if err != nil {
+		return nil, err
+	}
+	var rep resources.ReceiveValueResp
+	if err := c.Call("CRDTRPCReceiver.ReceiveValue", resources.ReceiveValueArgs{Value: v}, &rep); err != nil {
+		return nil, err
+	}
+	return rep.Value, nil
+}
+
+func (r *run) tick() int64 {
+	t := time.Now().UnixNano()
+	for t <= r.lastT {
+		t = time.Now().UnixNano()
+	}
+	return t
+}
+
+func req(cmd, elem int64) tla.Value {
+	return tla.MakeRecord([]tla.RecordField{
+		{Key: tla.MakeString("cmd"), Value: tla.MakeNumber(int32(cmd))},
+		{Key: tla.MakeString("elem"), Value: tla.MakeNumber(int32(elem))},
+	})
+}
+
+func (r *run) initVal(node int) gated {
+	switch r.k.Type {
+	case "gcounter":
+		return gated{resources.GCounter{}.Init(), node}
+	case "aworset":
+		return gated{resources.AWORSet{}.Init(), node}
+	case "lww":
+		return gated{resources.LWWSet{}.Init(), node}
+	}
+	panic("unknown type " + r.k.Type)
+}
+
+// external value from its JSON description
+func (r *run) external(raw json.RawMessage) resources.CRDTValue {
+	var ps [][2]int64
+	if err := json.Unmarshal(raw, &ps); err != nil {
+		panic("bad external value: " + err.Error())
+	}
+	var val resources.CRDTValue = r.initVal(-1)
+	for _, p := range ps {
+		if r.k.Type == "gcounter" {
+			val = val.Write(tla.MakeNumber(int32(p[0])), tla.MakeNumber(int32(p[1])))
+		} else {
+			if r.k.Type == "lww" {
+				t := r.tick()
+				r.t0 = append(r.t0, t)
+			}
+			val = val.Write(tla.MakeNumber(100), req(p[0], p[1]))
+			r.lastT = time.Now().UnixNano()
+		}
+	}
+	return val
+}
+
+// simple performs a w / c / a event of a node
+func (r *run) simple(ev []json.RawMessage) error {
+	var kind string
+	json.Unmarshal(ev[0], &kind)
+	var i int
+	json.Unmarshal(ev[1], &i)
+	var iface distsys.ArchetypeInterface
+	switch kind {
+	case "w":
+		var a, b int64
+		json.Unmarshal(ev[2], &a)
+		if r.k.Type == "gcounter" {
+			return r.nodes[i].WriteValue(iface, tla.MakeNumber(int32(a)))
+		}
+		json.Unmarshal(ev[3], &b)
+		if r.k.Type == "lww" {
+			r.t0 = append(r.t0, r.tick())
+		}
+		err := r.nodes[i].WriteValue(iface, req(a, b))
+		r.lastT = time.Now().UnixNano()
+		return err
+	case "c":
+		if ch := r.nodes[i].PreCommit(iface); ch != nil {
+			if err := <-ch; err != nil {
+				return err
+			}
+		}
+		if ch := r.nodes[i].Commit(iface); ch != nil {
+			<-ch
+		}
+		return nil
+	case "a":
+		if ch := r.nodes[i].Abort(iface); ch != nil {
+			<-ch
+		}
+		return nil
+	}
+	return fmt.Errorf("not a simple event: %s", kind)
+}
+
+func (r *run) subs(raw json.RawMessage) error {
+	var sub []json.RawMessage
+	if err := json.Unmarshal(raw, &sub); err != nil {
+		return err
+	}
+	for _, s := range sub {
+		var ev []json.RawMessage
+		if err := json.Unmarshal(s, &ev); err != nil {
+			return err
+		}
+		if err := r.simple(ev); err != nil {
+			return err
+		}
+	}
+	return nil
+}
+
+func wrote(raw json.RawMessage, open *bool, dirty *bool) (committed bool) {
+	// follows a SUB list: returns whether it contains a commit of a section that wrote
+	var sub [][]json.RawMessage
+	json.Unmarshal(raw, &sub)
+	for _, ev := range sub {
+		var kind string
+		json.Unmarshal(ev[0], &kind)
+		switch kind {
+		case "w":
+			*open, *dirty = true, true
+		case "c":
+			if *dirty {
+				committed = true
+			}
+			*open, *dirty = false, false
+		case "a":
+			*open, *dirty = false, false
+		}
+	}
+	return
+}
+
 func runCase(k kase) (res result) {
 	res.ID = k.ID
+	res.PFails = []pfail{}
 	defer func() {
-		if r := recover(); r != nil {
-			res.Err = fmt.Sprintf("panic: %v", r)
+		if x := recover(); x != nil {
+			res.Err = fmt.Sprintf("panic: %v", x)
 		}
 	}()
+	r := &run{k: k}
 	// reserve all addresses while holding every listener open (closing one before binding the next
 	// may hand the same port out twice), then release them for NewCRDT
-	addrs := make([]string, k.N+1)
+	r.addrs = make([]string, k.N+1)
 	held := make([]net.Listener, 0, k.N+1)
-	for i := range addrs {
+	for i := range r.addrs {
 		l, err := net.Listen("tcp", "127.0.0.1:0")
 		if err != nil {
 			res.Err = "listen: " + err.Error()
 			return
 		}
-		addrs[i] = l.Addr().String()
+		r.addrs[i] = l.Addr().String()
 		held = append(held, l)
 	}
 	for _, l := range held {
@@ -149,8 +523,8 @@ func runCase(k kase) (res result) {
 	for i := range ids {
 		ids[i] = tla.MakeNumber(int32(i))
 	}
-	nodes := make([]distsys.ArchetypeResource, k.N)
-	down := make([]bool, k.N)
+	r.nodes = make([]distsys.ArchetypeResource, k.N)
+	r.cl = make([]*rpc.Client, k.N)
 	for i := 0; i < k.N; i++ {
 		var peers []tla.Value
 		for j := 0; j < k.N; j++ {
@@ -161,21 +535,55 @@ func runCase(k kase) (res result) {
 		if k.DeadPeer {
 			peers = append(peers, tla.MakeNumber(int32(k.N)))
 		}
-		nodes[i] = resources.NewCRDT(ids[i], peers, func(id tla.Value) string { return addrs[id.AsNumber()] },
-			resources.GCounter{},
+		r.nodes[i] = resources.NewCRDT(ids[i], peers, func(id tla.Value) string { return r.addrs[id.AsNumber()] },
+			r.initVal(i),
 			resources.WithCRDTBroadcastInterval(1000*time.Hour),
 			resources.WithCRDTDialTimeout(500*time.Millisecond),
 			resources.WithCRDTSendTimeout(2*time.Second))
 	}
 	defer func() {
-		for i, r := range nodes {
-			if !down[i] {
-				resources.VerifCRDTShutdown(r)
+		for _, c := range r.cl {
+			if c != nil {
+				c.Close()
 			}
 		}
+		for _, n := range r.nodes {
+			resources.VerifCRDTShutdown(n)
+		}
 	}()
-	var iface distsys.ArchetypeInterface
-	for _, raw := range k.Events {
+
+	payloadOracle := k.Type == "gcounter" || k.Type == "lww"
+	lastc := make([]resources.CRDTValue, k.N) // stable state right after the node's last writing commit
+	recvd := make([][]resources.CRDTValue, k.N)
+	open := make([]bool, k.N)
+	dirty := make([]bool, k.N)
+	probe := func() []resources.CRDTValue {
+		out := make([]resources.CRDTValue, k.N)
+		for i := range out {
+			v, err := r.receive(i, nil)
+			if err != nil {
+				panic("probe: " + err.Error())
+			}
+			out[i] = v
+		}
+		return out
+	}
+	fail := func(sig string, ev int, what string) {
+		for _, f := range res.PFails {
+			if f.Sig == sig {
+				return
+			}
+		}
+		res.PFails = append(res.PFails, pfail{sig, ev, what})
+	}
+	var before []resources.CRDTValue
+	var prevSnaps []snap
+	if payloadOracle {
+		before = probe()
+	}
+	prevSnaps, _ = r.takeSnaps()
+
+	for evNo, raw := range k.Events {
 		var ev []json.RawMessage
 		if err := json.Unmarshal(raw, &ev); err != nil {
 			res.Err = "bad event: " + err.Error()
@@ -184,60 +592,94 @@ func runCase(k kase) (res result) {
 		var kind string
 		json.Unmarshal(ev[0], &kind)
 		var i int
-		json.Unmarshal(ev[1], &i)
+		if len(ev) > 1 {
+			json.Unmarshal(ev[1], &i)
+		}
 		var reply map[string]int64
+		blocked := false
+		r.t0 = []int64{}
+		committedNow := false
+		var ext resources.CRDTValue
 		done := make(chan error, 1)
 		go func() {
 			defer func() {
-				if r := recover(); r != nil {
-					done <- fmt.Errorf("panic: %v", r)
+				if x := recover(); x != nil {
+					done <- fmt.Errorf("panic: %v", x)
 				}
 			}()
 			switch kind {
-			case "w":
-				var v int32
-				json.Unmarshal(ev[2], &v)
-				done <- nodes[i].WriteValue(iface, tla.MakeNumber(v))
-			case "c":
-				if ch := nodes[i].PreCommit(iface); ch != nil {
-					if err := <-ch; err != nil {
-						done <- err
-						return
+			case "w", "c", "a":
+				if kind == "w" {
+					open[i], dirty[i] = true, true
+				} else {
+					if kind == "c" && dirty[i] {
+						committedNow = true
 					}
+					open[i], dirty[i] = false, false
 				}
-				if ch := nodes[i].Commit(iface); ch != nil {
-					<-ch
-				}
-				done <- nil
-			case "a":
-				if ch := nodes[i].Abort(iface); ch != nil {
-					<-ch
-				}
-				done <- nil
+				done <- r.simple(ev)
 			case "t":
-				if !down[i] {
-					resources.VerifCRDTBroadcast(nodes[i])
-				}
+				resources.VerifCRDTBroadcast(r.nodes[i])
 				done <- nil
 			case "r":
-				var ps [][2]int64
-				json.Unmarshal(ev[2], &ps)
-				var val resources.CRDTValue = resources.GCounter{}.Init()
-				for _, p := range ps {
-					val = val.Write(tla.MakeNumber(int32(p[0])), tla.MakeNumber(int32(p[1])))
+				ext = r.external(ev[2])
+				rep, err := r.receive(i, ext)
+				if err == nil && k.Type == "gcounter" {
+					reply = entries(fmt.Sprint(rep))
 				}
-				client, err := rpc.Dial("tcp", addrs[i])
-				if err != nil {
-					done <- err
+				done <- err
+			case "gm":
+				ext = r.external(ev[2])
+				key := fmt.Sprintf("m%d", i)
+				gate.arm(key)
+				// the RPC itself may have to wait for the merger (its reply needs the read lock)
+				rcvDone := make(chan error, 1)
+				go func() { _, err := r.receive(i, ext); rcvDone <- err }()
+				select {
+				case <-gate.entered:
+				case <-time.After(3 * time.Second):
+					gate.disarm(key)
+					done <- fmt.Errorf("hang: merger of node %d never started the merge", i)
 					return
 				}
-				defer client.Close()
-				var rep resources.ReceiveValueResp
-				if err := client.Call("CRDTRPCReceiver.ReceiveValue", resources.ReceiveValueArgs{Value: val}, &rep); err != nil {
-					done <- err
-					return
+				subDone := make(chan error, 1)
+				go func() { subDone <- r.subs(ev[3]) }()
+				var err error
+				select {
+				case err = <-subDone:
+					gate.release <- struct{}{}
+				case <-time.After(30 * time.Millisecond):
+					blocked = true // the merger holds the state lock while merging: SUB waits
+					gate.release <- struct{}{}
+					err = <-subDone
 				}
-				reply = entries(fmt.Sprint(rep.Value))
+				if wrote(ev[3], &open[i], &dirty[i]) {
+					committedNow = true
+				}
+				if err2 := <-rcvDone; err == nil {
+					err = err2
+				}
+				done <- err
+			case "gt":
+				key := fmt.Sprintf("e%d", i)
+				gate.arm(key)
+				tickDone := make(chan struct{})
+				go func() { resources.VerifCRDTBroadcast(r.nodes[i]); close(tickDone) }()
+				var err error
+				select {
+				case <-gate.entered:
+					err = r.subs(ev[2])
+					gate.release <- struct{}{}
+					<-tickDone
+				case <-tickDone: // nothing owed (or nobody to send to): the round did not encode anything
+					gate.disarm(key)
+					err = r.subs(ev[2])
+				}
+				if wrote(ev[2], &open[i], &dirty[i]) {
+					committedNow = true
+				}
+				done <- err
+			case "fin":
 				done <- nil
 			default:
 				done <- fmt.Errorf("unknown event %s", kind)
@@ -253,13 +695,64 @@ func runCase(k kase) (res result) {
 			res.Err = "hang: event " + kind
 			return
 		}
-		s, err := settle(nodes, down)
+		s, err := r.settle()
 		if err != nil {
 			res.Err = err.Error()
 			return
 		}
 		res.Snaps = append(res.Snaps, s)
 		res.Replies = append(res.Replies, reply)
+		res.T0 = append(res.T0, r.t0)
+		res.Blocked = append(res.Blocked, blocked)
+
+		if payloadOracle {
+			cur := probe()
+			// bookkeeping of what was received
+			if (kind == "t" || kind == "gt") && prevSnaps[i].Need > 0 {
+				for j := 0; j < k.N; j++ {
+					if j != i {
+						recvd[j] = append(recvd[j], before[i])
+						recvd[i] = append(recvd[i], before[j])
+					}
+				}
+			}
+			if ext != nil {
+				recvd[i] = append(recvd[i], ext)
+			}
+			if committedNow {
+				lastc[i] = cur[i]
+			}
+			for j := 0; j < k.N; j++ {
+				if lastc[j] != nil && !leq(lastc[j], cur[j]) {
+					fail("committed-update-lost", evNo, fmt.Sprintf("event %d: node %d no longer holds its own committed state %s, stable state is %s", evNo, j, canonStr(lastc[j]), canonStr(cur[j])))
+				}
+				for _, p := range recvd[j] {
+					if !leq(p, cur[j]) {
+						fail("received-state-lost", evNo, fmt.Sprintf("event %d: node %d received %s earlier, stable state is now %s", evNo, j, canonStr(p), canonStr(cur[j])))
+						break
+					}
+				}
+				if len(recvd[j]) > 24 {
+					recvd[j] = recvd[j][len(recvd[j])-24:]
+				}
+			}
+			if kind == "t" && lastc[i] != nil {
+				for j := 0; j < k.N; j++ {
+					if j != i && !leq(lastc[i], cur[j]) {
+						fail("owed-broadcast-consumed", evNo, fmt.Sprintf("event %d: after a broadcast round of node %d, node %d does not hold its last committed state %s (has %s)", evNo, i, j, canonStr(lastc[i]), canonStr(cur[j])))
+					}
+				}
+			}
+			if kind == "fin" {
+				for j := 1; j < k.N; j++ {
+					if own(cur[j]) != own(cur[0]) {
+						fail("no-convergence", evNo, fmt.Sprintf("after the finale node 0 holds %s and node %d holds %s", canonStr(cur[0]), j, canonStr(cur[j])))
+					}
+				}
+			}
+			before = cur
+		}
+		prevSnaps = s
 	}
 	return
 }
@@ -276,6 +769,9 @@ func main() {
 		if err := dec.Decode(&k); err != nil {
 			fmt.Fprintln(os.Stderr, "bad case:", err)
 			os.Exit(2)
+		}
+		if k.Type == "" {
+			k.Type = "gcounter"
 		}
 		enc.Encode(runCase(k))
 		out.Flush()
